@@ -32,13 +32,13 @@ type vFuzzTracer struct {
 	minrem   int
 	panicked bool
 	// pending "before" observation
-	pend   bool
-	pc     int
-	rem    int
-	cost   int
-	calls  []interface{}
-	h      int
-	top    []interface{}
+	pend  bool
+	pc    int
+	rem   int
+	cost  int
+	calls []interface{}
+	h     int
+	top   []interface{}
 }
 
 func (t *vFuzzTracer) BeforeOpcode(cx *EvalContext) {
@@ -353,10 +353,8 @@ func vRunF(out *vOut, st map[string]int, r *vRand) {
 	prog := vGenProgram(r)
 	args, argsok := vGenArgs(r)
 	mode := ModeSig
-	m := 1
 	if r.Bool() {
 		mode = ModeApp
-		m = 2
 	}
 	lsv := uint64(LogicVersion)
 	switch r.Intn(12) {
@@ -369,14 +367,28 @@ func vRunF(out *vOut, st map[string]int, r *vRand) {
 	budget := budgets[r.Intn(len(budgets))]
 	pooling := r.Intn(4) != 0
 	isolate := mode == ModeApp && r.Intn(6) == 0 // an isolated ClearState run: remainingBudget ignores the pool
-	tr := &vFuzzTracer{maxRec: vEnvInt("VERIF_C31_REC", 100), minrem: 1 << 60}
-	env := vNewEnvOpt(mode, lsv, prog, args, tr, func(p *config.ConsensusParams) {
+	vRunFProg(out, st, "f", prog, args, argsok, mode, lsv, budget, pooling, isolate)
+}
+
+func vRunFProg(out *vOut, st map[string]int, tag string, prog []byte, args [][]byte, argsok bool, mode RunMode,
+	lsv uint64, budget int, pooling, isolate bool) {
+	m := 1
+	if mode == ModeApp {
+		m = 2
+	}
+	opt := func(p *config.ConsensusParams) {
 		p.LogicSigMaxCost = uint64(budget)
 		p.MaxAppProgramCost = budget
 		p.EnableLogicSigCostPooling = pooling
 		p.EnableAppCostPooling = pooling
 		p.IsolateClearState = isolate
-	})
+	}
+	// the static check on its own parameters (a panic there is recovered into a panicError too)
+	envc := vNewEnvOpt(mode, lsv, prog, args, nil, opt)
+	ckb := envc.remaining()
+	chk := vCheckClass(envc.check(prog))
+	tr := &vFuzzTracer{maxRec: vEnvInt("VERIF_C31_REC", 100), minrem: 1 << 60}
+	env := vNewEnvOpt(mode, lsv, prog, args, tr, opt)
 	if isolate {
 		env.ep.TxnGroup[env.gi].Txn.OnCompletion = transactions.ClearStateOC
 		st["f_isolated_clearstate"]++
@@ -407,15 +419,16 @@ func vRunF(out *vOut, st map[string]int, r *vRand) {
 	if n <= 0 {
 		v = 0
 	}
-	out.Case(vSym("f"), v, m, lsv, minv, argsok, prog, evcls, pass, tr.nsteps, tr.maxdepth, tr.maxlen,
+	out.Case(vSym("f"), v, m, lsv, minv, argsok, prog, chk, ckb, evcls, pass, tr.nsteps, tr.maxdepth, tr.maxlen,
 		tr.minrem, vL(fh, ftop), tr.steps)
-	st[fmt.Sprintf("f_eval_class_%d", evcls)]++
+	st[fmt.Sprintf("%s_eval_class_%d", tag, evcls)]++
+	st[fmt.Sprintf("%s_check_class_%d", tag, chk)]++
 	if pass {
-		st["f_accept"]++
+		st[tag+"_accept"]++
 	} else if err == nil {
-		st["f_reject"]++
+		st[tag+"_reject"]++
 	}
-	st["f_steps"] += tr.nsteps
+	st[tag+"_steps"] += tr.nsteps
 	if tr.maxdepth > st["f_max_depth_seen"] {
 		st["f_max_depth_seen"] = tr.maxdepth
 	}
@@ -436,6 +449,17 @@ func TestVerifC31(t *testing.T) {
 	defer out.Close()
 	st := map[string]int{}
 	r := vNewRand(0x31)
+	// directed stream: extreme immediates of every kind, every version, both modes (all tiers)
+	ne := 0
+	for v := uint64(0); v <= LogicVersion+1; v++ {
+		for _, prog := range vExtremePrograms(v) {
+			for _, mode := range []RunMode{ModeSig, ModeApp} {
+				vRunFProg(out, st, "e", prog, vLsigArgs(), true, mode, LogicVersion, 3000, true, false)
+				ne++
+			}
+		}
+	}
+	st["e_cases"] = ne
 	n := vEnvInt("VERIF_C31_N", 6000)
 	for i := 0; i < n; i++ {
 		vRunF(out, st, r)
